@@ -1011,7 +1011,7 @@ class Interp:
 
     def e_Constant(self, e, env):
         v = e.value
-        if v is None or isinstance(v, (bool, int, str)):
+        if v is None or isinstance(v, (bool, int, str, bytes)):
             return v
         if v is Ellipsis:
             return None
